@@ -442,9 +442,12 @@ int main(int argc, char **argv)
             sqrt64_lattice(thorough);
             gcd_all(thorough);
         }
-        rev_all();
-        order_all();
-        order_seq();
+        if (args.geti("mathonly", 0) == 0) // the configurations that differ only in src/math.c repeat only the sweeps over src/math.c
+        {
+            rev_all();
+            order_all();
+            order_seq();
+        }
         R.finish(true, "every listed domain enumerated completely");
     }, 120.0);
 }
